@@ -15,6 +15,13 @@ CHECKS = {
  'C11': dict(
    text='bounded, solver-decided at the reader-event interface: for every document of the skeletons with arbitrary incidental detail (element form, Text/CDATA, contents, attribute values, comments/PI/declaration/DOCTYPE at every slot) z3 shows the rendered text equal to that of the canonical representative of its structure class (all elements expanded, Text only, no noise), hence invariant under every listed rewrite; buffer capacities are inside quick_xml and only sampled natively',
    design='§4 C11', technique='symbolic execution + 2-run product (arbitrary detail vs canonical representative), output equality decided by z3 per path'),
+ 'C07': dict(
+   text='bounded, solver-decided for this repository\'s code: (B) every sequence of <= N reader events of any kind in any order (errors, stray End, invalid UTF-8, attribute errors, empty/colon-only/multi-byte names) is executed symbolically through into_struct/extend_struct and the rendering of every Ok tree with unconstrained option strings - a panic is a path outcome and none is reachable; (A) Kani proves starts_with_xmlns / remove_namespace panic-free for every valid UTF-8 string within a byte bound. Byte-level tokenising, BufRead chunking and stack depth are NOT claimed (quick_xml / machine stack; sampled natively only)',
+   design='§4 C07', engine='rsym+kani', technique='symbolic execution over arbitrary event sequences (z3) + Kani/CBMC on the string-slicing kernels',
+   note='trusted base: rsym + reader-event model, z3, Kani/CBMC, tools/replay. Partial claim: the bytes->events layer (quick_xml) and stack depth are outside, stated in the evidence'),
+ 'C08': dict(
+   text='bounded, solver-decided at the reader-event interface where the property\'s oracle is defined: for every script of <= N events a default reader can deliver (kinds, UTF-8 flags, attribute errors at any slot, 64-bit positions symbolic) z3 shows per path that the result is Err exactly for the first fault in stream order, with the right variant, the reader\'s error and position, Display text, and "no element" only for an initial parse; a native cross-check compares the real parser with the same pass over the real event stream of mutated byte strings',
+   design='§4 C08', technique='symbolic execution over symbolic event scripts; independent stream-order pass as a z3 formula; per-path agreement decided by z3'),
  'C15': dict(
    text='bounded, solver-decided by two engines that must agree: Kani/CBMC verifies the compiled merge_necessity::<u8> for every list shape (LA,LB) in the stated set with all items and tags symbolic (unwinding assertions on, so within a shape the result holds for all values); rsym/z3 decides the same four clauses on the source with symbolic names for all shapes up to 3x3 (4x4 thorough)',
    design='§4 C15, §2.1', engine='rsym+kani', technique='Kani (CBMC/cadical) bounded model checking of the compiled generic function per list shape, cross-checked by source-level symbolic execution with z3',
